@@ -16,8 +16,8 @@
      K <oreq>             known-finding classes of an OTLP request -> "" | int-precision | time-wrap | int-precision,time-wrap
    <request> = "-" (no series) or series joined by "/"; series = labels "|" samples;
                labels = namehex ":" valuehex joined by ","; samples = ts ":" bits joined by ","
-   <batch>   = "cols=" hex,.. "|rows=" row "/" row ..; row = ts ";" namehex ";" value ";" cells
-               cells = hex or "~" (null) joined by ","                                    *)
+   <batch>   = "cols=" xhex,.. "|rows=" row "/" row ..; row = ts ";" namehex ";" value ";" cells
+               cells = xhex or "~" (null) joined by ","; xhex = "x" followed by the hex text     *)
 
 let rec int_of_pos p = match p with XH -> 1 | XO q -> 2 * int_of_pos q | XI q -> 2 * int_of_pos q + 1
 let int_of_small = function N0 -> 0 | Npos p -> int_of_pos p
@@ -64,10 +64,10 @@ let show_routed = function
   | RF64 b -> "F" ^ string_of_n b
 
 let show_batch (b : batch) : string =
-  "cols=" ^ String.concat "," (List.map hex_of_bytes b.b_cols) ^ "|rows=" ^
+  "cols=" ^ String.concat "," (List.map (fun c -> "x" ^ hex_of_bytes c) b.b_cols) ^ "|rows=" ^
   String.concat "/" (List.map (fun r ->
     string_of_z r.r_ts ^ ";" ^ hex_of_bytes r.r_name ^ ";" ^ show_routed r.r_val ^ ";" ^
-    String.concat "," (List.map (function Some v -> hex_of_bytes v | None -> "~") r.r_labels)) b.b_rows)
+    String.concat "," (List.map (function Some v -> "x" ^ hex_of_bytes v | None -> "~") r.r_labels)) b.b_rows)
 
 let show_parse = function
   | Done r -> "OK " ^ show_request r
@@ -130,10 +130,10 @@ let parse_oreq (s : string) : resource_metrics list =
                         (split_on '^' scopes) }
     | _ -> failwith "bad rm") (String.split_on_char '/' s)
 let show_obatch (b : obatch) : string =
-  "cols=" ^ String.concat "," (List.map hex_of_bytes b.ob_cols) ^ "|rows=" ^
+  "cols=" ^ String.concat "," (List.map (fun c -> "x" ^ hex_of_bytes c) b.ob_cols) ^ "|rows=" ^
   String.concat "/" (List.map (fun r ->
     string_of_z r.o_ts ^ ";" ^ hex_of_bytes r.o_name ^ ";" ^ string_of_n r.o_bits ^ ";" ^
-    String.concat "," (List.map (function Some v -> hex_of_bytes v | None -> "~") r.o_cells)) b.ob_rows)
+    String.concat "," (List.map (function Some v -> "x" ^ hex_of_bytes v | None -> "~") r.o_cells)) b.ob_rows)
 
 let run_line (line : string) : string =
   match String.split_on_char ' ' (String.trim line) with
